@@ -6,20 +6,31 @@ VARIABLES env,      \* name -> integer value : options and constants defined so 
           iopts,    \* integer-valued options, sequence of <<name, value>> in definition order (a later definition wins)
           sopts,    \* string-valued options
           secs,     \* sequence of [id |-> n, cmds |-> <<command records>>]
-          phase     \* "defs" | "section" | "refused"
-pvars == <<env, iopts, sopts, secs, phase>>
+          phase,    \* "defs" | "section" | "refused"
+          kbs       \* key blobs in definition order: [id, lo, hi, key, ctr] (key / counter as hex text; an id is defined once)
+pvars == <<env, iopts, sopts, secs, phase, kbs>>
 Empty == [x \in {} |-> 0]
-PInit == env = Empty /\ iopts = <<>> /\ sopts = <<>> /\ secs = <<>> /\ phase = "defs"
+PInit == env = Empty /\ iopts = <<>> /\ sopts = <<>> /\ secs = <<>> /\ phase = "defs" /\ kbs = <<>>
 Upd(seq, n, v) == SelectSeq(seq, LAMBDA p : p[1] # n) \o <<<<n, v>>>>
 DefOption(n, e) == /\ phase = "defs" /\ Dom(e, env)
-                   /\ env' = (n :> Eval(e, env)) @@ env /\ iopts' = Upd(iopts, n, Eval(e, env)) /\ UNCHANGED <<sopts, secs, phase>>
-DefOptionStr(n, s) == phase = "defs" /\ sopts' = Upd(sopts, n, s) /\ UNCHANGED <<env, iopts, secs, phase>>
+                   /\ env' = (n :> Eval(e, env)) @@ env /\ iopts' = Upd(iopts, n, Eval(e, env)) /\ UNCHANGED <<sopts, secs, phase, kbs>>
+DefOptionStr(n, s) == phase = "defs" /\ sopts' = Upd(sopts, n, s) /\ UNCHANGED <<env, iopts, secs, phase, kbs>>
 DefConst(n, e) == /\ phase = "defs" /\ Dom(e, env)
-                  /\ env' = (n :> Eval(e, env)) @@ env /\ UNCHANGED <<iopts, sopts, secs, phase>>
+                  /\ env' = (n :> Eval(e, env)) @@ env /\ UNCHANGED <<iopts, sopts, secs, phase, kbs>>
 BeginSection(id) == /\ phase \in {"defs", "section"} /\ phase' = "section"
-                    /\ secs' = Append(secs, [id |-> id, cmds |-> <<>>]) /\ UNCHANGED <<env, iopts, sopts>>
-Stmt(st) == /\ phase = "section" /\ StmtDom(st, env)
+                    /\ secs' = Append(secs, [id |-> id, cmds |-> <<>>]) /\ UNCHANGED <<env, iopts, sopts, kbs>>
+KbIds == {kbs[i].id : i \in 1..Len(kbs)}
+KbOf(id) == kbs[CHOOSE i \in 1..Len(kbs) : kbs[i].id = id]
+\* keyblob (id) { ( start = lo, end = hi, key = "..", counter = ".." ) }   - before the sections; hi carries the ADE / VLD flags in its low bits
+DefKeyblob(id, lo, hi, key, ctr) == /\ phase = "defs" /\ id \notin KbIds /\ lo >= 0 /\ hi > lo
+                                    /\ kbs' = Append(kbs, [id |-> id, lo |-> lo, hi |-> hi, key |-> key, ctr |-> ctr])
+                                    /\ UNCHANGED <<env, iopts, sopts, secs, phase>>
+\* encrypt / keywrap name a key blob by its ID (not by its position); encrypted data lie inside the blob's range
+KbDom(st) == st.s \in {"encrypt", "keywrap"} =>
+               /\ st.kb \in KbIds
+               /\ (st.s = "encrypt" => Eval(st.addr, env) >= KbOf(st.kb).lo /\ Eval(st.addr, env) + Align512(Len(st.data)) <= KbOf(st.kb).hi + 1)
+Stmt(st) == /\ phase = "section" /\ StmtDom(st, env) /\ KbDom(st)
             /\ secs' = [secs EXCEPT ![Len(secs)].cmds = Append(@, Expected(st, env))]
-            /\ UNCHANGED <<env, iopts, sopts, phase>>
-Refuse(kind) == /\ phase = "section" /\ kind \in Unsupported /\ phase' = "refused" /\ UNCHANGED <<env, iopts, sopts, secs>>
+            /\ UNCHANGED <<env, iopts, sopts, phase, kbs>>
+Refuse(kind) == /\ phase = "section" /\ kind \in Unsupported /\ phase' = "refused" /\ UNCHANGED <<env, iopts, sopts, secs, kbs>>
 =============================================================================
